@@ -6,7 +6,7 @@ from autobean_refactor.models import base as mbase
 CASES = {'quick': 4000, 'thorough': 60000}
 SMALL_BLOCKS = 4      # runner: every 4th case keeps its stores in 2..10-token blocks
 GATES = {
-    'quick': {'multi_comment_handovers': 150, 'cases_in_small_blocks': 50, 'evaluations': 15000, 'steps_changing_store': 7000, 'op_kinds_seen': 70, 'popped_nodes_checked': 100,
+    'quick': {'multi_comment_handovers': 150, 'assigned_list_claims': 40, 'cases_in_small_blocks': 50, 'evaluations': 15000, 'steps_changing_store': 7000, 'op_kinds_seen': 70, 'popped_nodes_checked': 100,
               'edits_through_inserted_nodes': 200, 'claim_steps': 800, 'token_steps': 800},
     'thorough': {'evaluations': 400000, 'op_kinds_seen': 80, 'popped_nodes_checked': 5000},
 }
@@ -55,6 +55,10 @@ def run_case(col, r, idx):
         log = []
         inserted = set()
         pp = ops.pingpong_ops(f, r, 10) if layout and idx % 2 else []
+        if not pp and idx % 5 == 3:
+            pp = ops.assign_then_claim_ops(f, r)       # a list assigned as a whole, then asked to claim
+            if pp:
+                col.count('assigned_list_claims')
         if not pp and idx % 5 == 2:
             pp = ops.multi_comment_ops(f, r)       # several separate comment tokens in one gap, handed from list to list
             if pp:
